@@ -100,6 +100,7 @@ struct Case {
     std::string ty; // type tag for from_chars / to_integer, "-" otherwise
     int base{10};
     std::string s; // raw bytes
+    bool null{false}; // the input is the valid empty range [nullptr, nullptr) (only for the pointer-pair / string_view functions; s is empty)
 };
 auto pct(std::string const& s) -> std::string
 {
@@ -128,7 +129,7 @@ auto unpct(std::string const& s) -> std::string
     }
     return o;
 }
-auto show_case(Case const& k) -> std::string { return k.fn + " " + k.ty + " " + std::to_string(k.base) + " s=" + pct(k.s); }
+auto show_case(Case const& k) -> std::string { return k.fn + " " + k.ty + " " + std::to_string(k.base) + (k.null ? std::string(" null") : " s=" + pct(k.s)); }
 
 auto vis(std::string const& full) -> std::string
 {
@@ -162,8 +163,9 @@ struct Block {
     char* raw{nullptr};
     char* p{nullptr};
     std::size_t n{0};
-    Block(std::string const& s, bool terminate)
+    Block(std::string const& s, bool terminate, bool nullRange = false)
     {
+        if (nullRange) { return; } // p == nullptr, n == 0
         n             = s.size();
         auto const sz = n + (terminate ? 1 : 0);
         if (sz == 0) {
@@ -246,7 +248,7 @@ auto fmt(char const* f, ...) -> std::string
 template <typename T>
 auto chk_from_chars(Case const& k) -> std::string
 {
-    Block b(k.s, false);
+    Block b(k.s, false, k.null);
     T const sentinel = static_cast<T>(0x5A5A5A5A5A5A5A5AULL);
     T ev             = sentinel;
     T sv             = sentinel;
@@ -283,7 +285,7 @@ auto chk_from_chars(Case const& k) -> std::string
 template <typename T, bool WS, bool OV>
 auto chk_to_integer(Case const& k) -> std::string
 {
-    Block b(k.s, false);
+    Block b(k.s, false, k.null);
     char const* q = b.p;
     if (WS) {
         while (q != b.p + b.n && c_isspace(*q)) { ++q; }
@@ -404,7 +406,7 @@ auto chk_sto(Case const& k, EtlF etlf, StdF stdf) -> std::string
         return "";
     }
     std::string const str = k.s.substr(0, k.s.find('\0')); // std::sto* works on c_str()
-    Block b(str, false);
+    Block b(str, false, k.null);
     std::size_t spos = 0;
     R sv             = R{};
     int sc           = Ok;
@@ -717,7 +719,11 @@ auto gen_case(vf::Rng& rng, Meta& m) -> Case
 void grammar(vf::Ctx& c)
 {
     vf::Rng rng(c.seed);
+#if defined(C10_PARSE_UCHAR)
+    std::uint64_t const total = c.thorough() ? 4000000ULL : 400000ULL;
+#else
     std::uint64_t const total = c.thorough() ? 16000000ULL : 1600000ULL;
+#endif
     std::uint64_t const per   = total / static_cast<std::uint64_t>(c.nshards) + 1;
     for (std::uint64_t i = 0; i < per; ++i) {
         Meta m;
@@ -777,6 +783,10 @@ void short_strings(vf::Ctx& c)
                     if (base == 8 && !cfam) { continue; }
                     Case k{t.fn, t.ty, base, s};
                     exec(k, m, true);
+                    if (len == 0 && (!cfam || std::string(t.fn).rfind("sto", 0) == 0)) { // same call on the null empty range
+                        k.null = true;
+                        exec(k, m, true);
+                    }
                 }
             }
         }
@@ -923,11 +933,97 @@ void long_inputs(vf::Ctx& c)
     flush_stats("long");
 }
 
+// ---------------------------------------------------------------------------------------------- exhaustive: every byte value
+// Strings in which one or two positions range over ALL 256 byte values: every 1- and 2-byte string, every 3-byte
+// string with one free byte and two bytes from {' ', '\t', '-', '+', '0', '1', '4', '9', 'a', 'Z'}, [any][any]['7'],
+// and 4/5-byte strings with a free byte inside the leading run (" ?42", "? 42", "?-42", " ? -42", "12?3").
+// Covers the neighbours of the whitespace set, of the digit/letter ranges and the bytes >= 0x80 in every position.
+auto meta_of(std::string const& s) -> Meta
+{
+    Meta m;
+    std::size_t p = 0;
+    while (p < s.size() && c_isspace(s[p])) { ++p; }
+    m.ws = p > 0;
+    if (p < s.size() && s[p] == '-') {
+        m.sign = true;
+        ++p;
+    } else if (p < s.size() && s[p] == '+') {
+        m.plus = true;
+        ++p;
+    }
+    m.validDigit = p < s.size() && s[p] >= '0' && s[p] <= '9';
+    m.leadZero   = p + 1 < s.size() && s[p] == '0';
+    bool odd     = false; // a byte that neither the short-string alphabet nor the limit windows can produce
+    for (char ch : s) {
+        auto const u = static_cast<unsigned char>(ch);
+        if (u >= 0x80) { m.highByte = true; }
+        bool const alnum = (u >= '0' && u <= '9') || (u >= 'a' && u <= 'z') || (u >= 'A' && u <= 'Z');
+        if (!alnum && u != ' ' && u != '-' && u != '+' && u != '~' && u != 0x80) { odd = true; }
+    }
+    m.tail    = m.validDigit && !s.empty() && !((s.back() >= '0' && s.back() <= '9'));
+    m.countNt = odd;
+    return m;
+}
+
+void byte_strings(vf::Ctx& c)
+{
+    struct Target {
+        char const* fn;
+        char const* ty;
+    };
+    static Target const targets[] = {{"from_chars", "i8"}, {"from_chars", "char"}, {"from_chars", "u16"}, {"from_chars", "i32"}, {"from_chars", "ull"}, {"to_integer_ws1_ov1", "i32"}, {"to_integer_ws0_ov1", "u8"}, {"to_integer_ws1_ov0", "ll"},
+        {"strtol", "-"}, {"strtoul", "-"}, {"strtoll", "-"}, {"strtoull", "-"}, {"atoi", "-"}, {"atol", "-"}, {"atoll", "-"}, {"stoi", "-"}, {"stol", "-"}, {"stoul", "-"}, {"stoull", "-"}};
+    static char const S[]         = {' ', '\t', '-', '+', '0', '1', '4', '9', 'a', 'Z'};
+    std::uint64_t idx             = 0;
+    auto run = [&](std::string const& s, bool allBases) {
+        if (!c.mine(idx++)) { return; }
+        Meta const m = meta_of(s);
+        for (auto const& t : targets) {
+            bool const isAto = std::string(t.fn).rfind("ato", 0) == 0;
+            for (int base : {10, 36, 16, 2}) {
+                if (isAto && base != 10) { continue; }
+                if (!allBases && base != 10 && base != 36) { continue; }
+                Case k{t.fn, t.ty, base, s};
+                exec(k, m, true);
+            }
+        }
+    };
+    auto ch = [](int b) { return static_cast<char>(static_cast<unsigned char>(b)); };
+    for (int a = 0; a < 256; ++a) { run(std::string{ch(a)}, true); }
+    for (int a = 0; a < 256; ++a) {
+        for (int b = 0; b < 256; ++b) {
+            run(std::string{ch(a), ch(b)}, false);
+            run(std::string{ch(a), ch(b), '7'}, false);
+        }
+    }
+    for (int a = 0; a < 256; ++a) {
+        for (char x : S) {
+            for (char y : S) {
+                run(std::string{ch(a), x, y}, false);
+                run(std::string{x, ch(a), y}, false);
+                run(std::string{x, y, ch(a)}, false);
+            }
+        }
+        for (char const* pat : {" ?42", "? 42", "?-42", "-?42", "?+42", " ? -42", "\t?\n42", "12?3", "1?23", "-12?", "0?10", "??42"}) {
+            std::string s = pat;
+            for (auto& q : s) {
+                if (q == '?') { q = ch(a); }
+            }
+            run(s, true);
+        }
+    }
+    flush_stats("bytes");
+}
+
 auto parse_case(std::string const& cs, Case& k) -> bool
 {
     std::istringstream is(cs);
     std::string enc;
     if (!(is >> k.fn >> k.ty >> k.base >> enc)) { return false; }
+    if (enc == "null") {
+        k.null = true;
+        return target_of(k.fn) == nullptr || k.fn.rfind("sto", 0) == 0; // a null char const* is not a valid argument of strto*/ato*
+    }
     if (enc.rfind("s=", 0) != 0) { return false; }
     k.s = unpct(enc.substr(2));
     return true;
@@ -937,10 +1033,21 @@ auto parse_case(std::string const& cs, Case& k) -> bool
 
 void vf_run(vf::Ctx& c)
 {
+#if defined(C10_PARSE_UCHAR)
+    // second build configuration of this file (registry flags: -funsigned-char -DC10_PARSE_UCHAR=1): plain char is
+    // unsigned, as on the ARM ABIs the library targets; library and oracles are compiled with the same flag.
+    static_assert(std::is_unsigned_v<char>, "C10_PARSE_UCHAR must be built with -funsigned-char");
+    byte_strings(c);
+    short_strings(c);
+    grammar(c);
+#else
+    static_assert(std::is_signed_v<char>, "the default configuration expects a signed plain char");
+    byte_strings(c);
     short_strings(c);
     limit_windows(c);
     long_inputs(c);
     grammar(c);
+#endif
 }
 
 std::string vf_replay(std::string const& sub, std::string const& cs)
